@@ -2,7 +2,7 @@
    Only ExtrOcamlBasic's directives are used; numbers stay as extracted inductives. *)
 Require Extraction.
 Require Import ExtrOcamlBasic.
-From RxModel Require Import Derived Ops2 Subject GroupBy Flatten Timed Async Subscr Finalize Fin.
+From RxModel Require Import Derived Ops2 Subject GroupBy Flatten Timed Async Subscr Finalize Fin Pipe.
 From RxSpec Require Import DerivedSpec Ops2Spec SubjectSpec BehaviorSpec GroupBySpec FlattenSpec TimedSpec SubscrSpec FinalizeSpec.
 Extraction Language OCaml.
 Extraction "model.ml"
@@ -16,5 +16,6 @@ Extraction "model.ml"
   run_timed raw_ok timed_ok prompt_case remaining closed_sound_ok
   run_async yields pendings
   crun cstate0 alg_ok
-  run_finalize_segs fin_ok fspec0 rrun
-  run_iter_case run_stream_case run_interval_case.
+  run_finalize_segs run_finalize_segs_from fin_ok fspec0 fspec1 rrun
+  run_iter_case run_stream_case run_interval_case
+  exec idiom_log.
